@@ -61,6 +61,12 @@ def extra_cases():
         for ov in (False, True):
             out.append({"kind": kind, "oseed": i, "payload": f"import verif_sink; verif_sink.record({900 + i})",
                         "tag": 900 + i, "overwrite": ov, "out_exists": False, "refusal": True})
+    # history: the SAME input file was already injected (through other, fresh wrappers, overwrite off)
+    # earlier in this process -- the result must still be a function of the input file alone
+    for j, (rep, ov) in enumerate([(1, False), (2, False), (1, True)]):
+        out.append({"kind": KINDS[j % len(KINDS)], "oseed": 40 + j,
+                    "payload": f"import verif_sink; verif_sink.record({970 + j})", "tag": 970 + j,
+                    "overwrite": ov, "out_exists": False, "repeat": rep})
     out.append({"kind": "two_data_pkl", "oseed": 1, "payload": "import verif_sink; verif_sink.record(950)",
                 "tag": 950, "overwrite": False, "out_exists": False, "observation": True})
     out.append({"kind": "torchscript", "oseed": 1, "payload": "import verif_sink; verif_sink.record(960)",
@@ -243,8 +249,22 @@ def observe(case, workdir, tag):
     obj = build_input(case, in_path)
     in_bytes = open(in_path, "rb").read()
     in_members = members(in_path)
-    before = listing(d)
     so = io.StringIO()
+    for j in range(case.get("repeat", 0)):
+        pre = d + "_pre"            # outside the observed tree; removed below
+        os.makedirs(pre, exist_ok=True)
+        cwd0 = os.getcwd()
+        os.chdir(pre)
+        try:
+            with contextlib.redirect_stdout(so), warnings.catch_warnings():
+                warnings.simplefilter("ignore")
+                PyTorchModelWrapper(in_path).inject_payload(
+                    f"import verif_sink; verif_sink.record('earlier injection {j}')", f"earlier{j}.pt",
+                    injection="insertion", overwrite=False)
+        finally:
+            os.chdir(cwd0)
+    shutil.rmtree(d + "_pre", ignore_errors=True)
+    before = listing(d)
     with contextlib.redirect_stdout(so), warnings.catch_warnings():
         warnings.simplefilter("ignore")
         try:
